@@ -4,7 +4,7 @@ From Juniper Require Import Common.Base Deque.Model Deque.Spec Deque.Proofs.
 Section C15_deque.
   Context {T : Type} (zero : T) (minSize growMul : Z).
   Hypothesis Hmin : 1 <= minSize.
-  Hypothesis Hgrow : 2 <= growMul.
+  Hypothesis Hgrow : 2 <= growMul <= 32768.
 
   Notation run_state := (run_state zero minSize growMul).
   Notation step := (step zero minSize growMul).
@@ -38,7 +38,7 @@ Print Assumptions C15_deque_add_remove_panics.
 
 From Juniper Require Import Generated.Params.
 
-Theorem C15_deque_params_ok : 1 <= deque_minSize /\ 2 <= deque_growMul.
+Theorem C15_deque_params_ok : 1 <= deque_minSize /\ 2 <= deque_growMul <= 32768.
 Proof. unfold deque_minSize, deque_growMul; split; lia. Qed.
 
 Theorem C15_deque_snapshot_or_panic_shipped : forall ops : list (op Z),
